@@ -34,7 +34,7 @@ TITLE = "CPMC step samples the discrete Hubbard-Stratonovich propagator without 
 MENU = {"quick": 48, "thorough": 192}
 TIERS = {
     "quick": dict(runs=48 * 12, budget_s=170, recheck=2, shrink_s=60.0, run_timeout_s=900),
-    "thorough": dict(runs=192 * 150, budget_s=2400, recheck=6, shrink_s=180.0, run_timeout_s=1800),
+    "thorough": dict(runs=192 * 150, budget_s=1200, recheck=6, shrink_s=180.0, run_timeout_s=1800),
 }
 RULE = (
     "run i uses compiled-menu entry i mod M (lattice chain 2-4 / 2x2, filling with both spins present, UHF or GHF trial, dt, walkers, "
@@ -54,8 +54,8 @@ COMPONENTS = {
     "model": ["afqmcsim.models.cpmc.CPMCModel", "afqmcsim.models.fock"],
     "stub": [],
 }
-REQUIRED_PROBES = {"quick": ["walk_steps_compared", "exhaustive_sums", "model_exhaustive_validated", "pairs_checked", "same_spin_pairs", "nn_steps_compared", "both_branches_taken", "near_branch_uniforms"],
-                   "thorough": ["walk_steps_compared", "exhaustive_sums", "model_exhaustive_validated", "pairs_checked", "same_spin_pairs", "nn_steps_compared", "both_branches_taken", "near_branch_uniforms", "constraint_fired"]}
+REQUIRED_PROBES = {"quick": ["walk_steps_compared", "exhaustive_sums", "model_exhaustive_validated", "pairs_checked", "same_spin_pairs", "nn_steps_compared", "both_branches_taken", "near_branch_uniforms", "one_body_sign_flip"],
+                   "thorough": ["walk_steps_compared", "exhaustive_sums", "model_exhaustive_validated", "pairs_checked", "same_spin_pairs", "nn_steps_compared", "both_branches_taken", "near_branch_uniforms", "constraint_fired", "one_body_sign_flip"]}
 
 
 def menu_entry(k):
@@ -84,8 +84,10 @@ def gen_cfg(seed, index, tier):
     m["e_shift"] = rng.choice([0.0, -1.0, 0.7])
     if m["kind"] == "walk":
         m["steps"] = [rng.choice(["random", "random", "forced", "near"]) for _ in range(rng.randint(3, 12))]
+        m["node_walker"] = rng.random() < 0.35
     if m["kind"] == "nn":
         m["n_steps"] = rng.randint(2, 8)
+        m["nn_bonds"] = rng.choice(["lattice", "open", "extended"])
     if m["kind"] == "exhaustive":
         m["pre_steps"] = rng.choice([0, 1, 3])
     return m
@@ -95,8 +97,12 @@ def group_of(cfg):
     return f"m{cfg['menu']:03d}"
 
 
+def group_of_index(seed, index, tier):
+    return f"m{index % MENU[tier]:03d}"
+
+
 def spec_of(cfg, prop):
-    return dict(lattice=cfg["lattice"], n_sites=cfg["n_sites"], nelec=cfg["nelec"], u=cfg["u"], u_1=cfg["u_1"], dt=cfg["dt"], n_walkers=cfg["n_walkers"], prop=prop,
+    return dict(nn_bonds=cfg.get("nn_bonds", "lattice"), lattice=cfg["lattice"], n_sites=cfg["n_sites"], nelec=cfg["nelec"], u=cfg["u"], u_1=cfg["u_1"], dt=cfg["dt"], n_walkers=cfg["n_walkers"], prop=prop,
                 trial=cfg["trial"], chol=cfg["chol"], stagger=cfg["stagger"], noise=cfg["noise"], theta=cfg["theta"], ham_seed=cfg["ham_seed"])
 
 
@@ -178,6 +184,8 @@ def _compare_with_model(ctx, cfg, m, variant, site, opname, up0, dn0, ov0, w0, u
             continue
         if r["clipped"]:
             stats["constraint_fired"] += 1
+        if r.get("one_body_sign_flip"):
+            stats["one_body_sign_flip"] = stats.get("one_body_sign_flip", 0) + 1
         if r["w"] == 0.0:
             if not (w1[i] == 0.0):
                 _bad(ctx, "cpmc.weight_differs_from_model", site, cfg, op=opname, walker=i, code=float(w1[i]), model=0.0)
@@ -205,10 +213,21 @@ def _exec_walk(cfg, ctx):
     m = make_model(cfg, sf)
     ok_one_body = check_one_body(ctx, cfg, sf, m)
     w0 = start_walkers(cfg, sf)
+    min_ov = 1e-4
+    if cfg.get("node_walker"):
+        # walker 0 sits right at the trial's nodal surface: positive overlap that the
+        # one-body half step turns negative (the constraint must then kill it)
+        nd = cpmc_model.node_straddling_walker(m, np.asarray(w0[0])[0].real, np.asarray(w0[1])[0].real, np.random.RandomState(cfg["jax_seed"] + 11))
+        if nd is not None:
+            a, b = np.array(w0[0]), np.array(w0[1])
+            a[0], b[0] = nd[0], nd[1]
+            w0 = [jnp.array(a), jnp.array(b)]
+            min_ov = 0.0
+            ctx.probe("node_straddling_walkers", 1)
     pf = sf.plain.init_prop_data(sf.trial, sf.wave_data, dict(sf.ham_data), [jnp.array(w0[0]), jnp.array(w0[1])])
     ps = ss.plain.init_prop_data(ss.trial, ss.wave_data, dict(ss.ham_data), [jnp.array(w0[0]), jnp.array(w0[1])])
     ov = np.asarray(pf["overlaps"])
-    if not (np.all(np.isfinite(ov)) and np.min(np.abs(ov)) > 1e-4 and np.all(ov.real > 0)):
+    if not (np.all(np.isfinite(ov)) and np.min(np.abs(ov)) > min_ov and np.all(ov.real > 0)):
         ctx.count("precondition_start_overlap")
         return {"digest": None, "nontrivial": False}
     for p_ in (pf, ps):
@@ -274,9 +293,9 @@ def _exec_walk(cfg, ctx):
             taken.setdefault(site, set()).add(c)
     both = any(len(v) == 2 for v in taken.values())
     ctx.probe("both_branches_taken", both)
-    for kk in ("walk_steps_compared", "skipped_at_threshold", "constraint_fired"):
-        ctx.probe(kk, stats[kk])
-        ctx.count(kk, stats[kk])
+    for kk in ("walk_steps_compared", "skipped_at_threshold", "constraint_fired", "one_body_sign_flip"):
+        ctx.probe(kk, stats.get(kk, 0))
+        ctx.count(kk, stats.get(kk, 0))
     return {"digest": arr_hash(np.frombuffer("|".join(rec).encode(), np.uint8)), "nontrivial": both,
             "state_keys": [f"walk-{cfg['lattice']}{cfg['n_sites']}-{cfg['nelec']}-{cfg['trial']}-{cfg['chol']}-U{cfg['u']}-dt{cfg['dt']}"],
             "sim_steps": len(cfg["steps"]), "sim_time": len(cfg["steps"]) * cfg["dt"],
@@ -445,7 +464,7 @@ def _exec_nn(cfg, ctx):
     ctx.probe("nn_steps_compared", ncmp)
     ctx.count("nn_steps_compared", ncmp)
     return {"digest": arr_hash(np.frombuffer("|".join(rec).encode(), np.uint8)), "nontrivial": ncmp > 0,
-            "state_keys": [f"nn-{cfg['lattice']}{n}-{cfg['nelec']}-{cfg['trial']}-U{cfg['u']}-V{cfg['u_1']}"], "sim_steps": cfg["n_steps"], "sim_time": cfg["n_steps"] * cfg["dt"],
+            "state_keys": [f"nn-{cfg['lattice']}{n}-{cfg['nn_bonds']}-{cfg['nelec']}-{cfg['trial']}-U{cfg['u']}-V{cfg['u_1']}"], "sim_steps": cfg["n_steps"], "sim_time": cfg["n_steps"] * cfg["dt"],
             "sample": {"cfg": cfg, "final_weights_fast": np.asarray(pf["weights"]).tolist(), "final_weights_slow": np.asarray(ps["weights"]).tolist()}}
 
 
